@@ -100,6 +100,16 @@ def gen_cfgs(ctx, n):
         mid = ['f0'] + ['f1'] + ['f0'] * (1 + i % 2) + ['f1'] * (accum - 1) + ['s']
         cfg.ops = it + mid + it + ['f1', 'f0'] + ['f1'] * (accum - 1) + ['s'] + it
         cfgs.append(cfg)
+    # directed: a checkpoint of a run WITHOUT clipping (kl_clip=None is a value of its own, not "absent") loaded into a
+    # preconditioner constructed with a binding clip: clipping is off again afterwards
+    for world in (1, 2):
+        cfg = kfacsim.Config(rng, world=world)
+        cfg.hyper_changes = []
+        cfg.hyper['kl_clip'] = None
+        cfg.perturb_ctor = True
+        it = ['f1'] * cfg.accum + ['s']
+        cfg.ops = it * 2 + ['l11'] + it * 3
+        cfgs.append(cfg)
     # directed: intervals changed by the real scheduler with factors whose products are not integral (3 x 3/2 -> 4, 5 x 1/2 -> 2):
     # the truncated interval is the one the following steps honour
     for fus, ius, ff, fi in ((1, 3, None, Fraction(3, 2)), (3, 5, Fraction(3, 2), Fraction(1, 2))):
